@@ -746,12 +746,25 @@ package fit
 //@   loop 0 invariant [range] 0 <= j && j <= int(dfield.size)
 //@   loop 0 decreases int(dfield.size) - j
 
+//@@ C02: the bytes of element k of an array field start at offset k x element size; multi-byte elements are read in
+//@@ the definition's byte order (the element store then keeps the low bits: for an element type as wide as the base
+//@@ type that is the signed value)
+//@ spec tmp16at(d *decoder, dm *defmsg, j int) uint16 := ite(isLE(dm.arch), uint16(d.tmp[j])|uint16(d.tmp[j+1])<<8, uint16(d.tmp[j+1])|uint16(d.tmp[j])<<8)
+//@ spec tmp32at(d *decoder, dm *defmsg, j int) uint32 := ite(isLE(dm.arch), uint32(d.tmp[j])|uint32(d.tmp[j+1])<<8|uint32(d.tmp[j+2])<<16|uint32(d.tmp[j+3])<<24, uint32(d.tmp[j+3])|uint32(d.tmp[j+2])<<8|uint32(d.tmp[j+1])<<16|uint32(d.tmp[j])<<24)
+//@ spec tmp64at(d *decoder, dm *defmsg, j int) uint64 := ite(isLE(dm.arch), uint64(tmp32at(d, dm, j))|uint64(tmp32at(d, dm, j+4))<<32, uint64(tmp32at(d, dm, j+4))|uint64(tmp32at(d, dm, j))<<32)
+
 //@ func (d *decoder) parseFitFieldArray(dm *defmsg, dfield fieldDef, fieldv reflect.Value) (err error)
 //@   props C01
+//@   callsite SetInt [elem-s16] {C02} j == 2*k && i16 == int64(tmp16at(d, dm, j))
+//@   callsite SetUint [elem-u16] {C02} j == 2*k && ui16 == uint64(tmp16at(d, dm, j))
+//@   callsite SetInt [elem-s32] {C02} j == 4*k && i32 == int64(tmp32at(d, dm, j))
+//@   callsite SetUint [elem-u32] {C02} j == 4*k && ui32 == uint64(tmp32at(d, dm, j))
+//@   callsite SetFloat [elem-f32] {C02} j == 4*k && (f32 == float64(f32bits(tmp32at(d, dm, j))) || isNaN(f32))
+//@   callsite SetFloat [elem-f64] {C02} j == 8*k && (f64 == f64bits(tmp64at(d, dm, j)) || isNaN(f64))
 //@   ensures [other-cells] {C12} forall c int :: c != rvcell(fieldv) ==> rvtimeat(fieldv, c) == old(rvtimeat(fieldv, c))
 //@   ensures [not-clean-eof] !iserr(err, errReadSize)
 //@   requires archOK(dm) && rvmt(fieldv) < 0xFFF0 && types.KnownIdx(dfield.btype)
-//@   locals j int, k int
+//@   locals j int, k int, i16 int64, ui16 uint64, i32 int64, ui32 uint64, f32 float64, f64 float64
 //@   requires [array] arrayOK(dfield.btype, dfield.size, rvcls(fieldv), rvecls(fieldv), rvewid(fieldv), rvttag(fieldv))
 //@   assigns rvstate(fieldv)
 //@   loop 0 invariant [range] 0 <= j && j <= int(dfield.size)
